@@ -273,7 +273,8 @@ def r03_3_table(chk):
                 conv.where)
     val = conv.lookup("validate_numpy_dtype")
     from ..terms import raise_conditions as _rc, contains as _contains, pp as _pp
-    vs = chk.summary(val)
+    # (a helper that extracts the dtype's name is looked through)
+    vs = chk.terms.inline(val, 2, stop=lambda g: g.cls is not val.cls)
     nt = ("param", val.param_names[-1])
     table_guard = [pc for pc, _ in _rc(vs) if any(
         l[0] == "cmp" and l[1] == "not in" and _pp(l[3]).endswith("numpy_dtypes_to_repr_codes") for l in pc)]
@@ -281,8 +282,10 @@ def r03_3_table(chk):
                 "dtype validation is not membership in the dtype table (no raise under `<dtype name> not in <table>`)",
                 val.where)
     names = [l[2] for pc in table_guard for l in pc if l[0] == "cmp" and l[1] == "not in"]
-    by_name = bool(names) and all(_contains(n_, lambda x: x[0] == "attr" and x[1] == nt and x[2] in ("name", "__name__"))
-                                  for n_ in names)
+    # (a summary with a helper looked through lists the guard twice - with the helper call and with its value)
+    resolved = [n_ for n_ in names if not _contains(n_, lambda x: x[0] == "call" and x in vs.precise)] or names
+    by_name = bool(resolved) and all(_contains(n_, lambda x: x[0] == "attr" and x[1] == nt and
+                                               x[2] in ("name", "__name__")) for n_ in resolved)
     chk.require(by_name, "R03.3", "dtype-identified-by-name",
                 "dtype validation no longer identifies the dtype by its name", val.where, nontrivial=False)
 
